@@ -7,7 +7,10 @@ case = {"outer": K, "inner": K, "ops": [...]}     K in none | noop | cb | eb | r
 ops:   ["cb"] ["eb"]            outer.callback(value) / outer.errback(failure)
        ["cancel"]               outer.cancel()
        ["add"] or ["add", K]    outer.addBoth(f) where f returns a fresh inner Deferred (canceller K)
-       ["fi", k, "ok"|"fail"]   fire inner k (k = -1: the most recently created one)
+       ["addto", k] or ["addto", k, K]
+                                inner k .addBoth(f) where f returns a fresh Deferred (canceller K): chains
+                                three or more deep (outer waits on inner k, inner k waits on the new one)
+       ["fi", k, "ok"|"fail"]   fire inner k (k = -1: the most recently created one, -2 the one before)
        ["ci", k]                inner k .cancel()
 An inner operation that names an inner Deferred that does not exist is ignored.
 
@@ -24,11 +27,11 @@ from lib.core import hyp_run, enumerate_run
 META = dict(
     property="C03",
     level="exploration",
-    technique="complete enumeration of all histories of length <= 6 (thorough <= 7, <= 8 for inner Deferreds without canceller) over 7 operations x canceller kinds, plus Hypothesis histories to length 20, against a sequential model of the fire-once / cancel protocol; compared after every operation, with a two-fire epilogue per Deferred",
-    level_text="All histories over {callback, errback, cancel, add callback returning a fresh inner Deferred, fire latest inner ok/fail, cancel latest inner} of the stated length are run for the listed (outer canceller, inner canceller) pairs (histories that contain an ignored inner operation are left out: they equal a shorter history; the comparison after every operation covers all prefixes). Hypothesis adds histories up to length 20 that address any inner Deferred and mix canceller kinds per inner Deferred. Exhaustive only inside that scope.",
+    technique="complete enumeration of all histories of length <= 6 (thorough <= 7, <= 8 for inner Deferreds without canceller) over 7 operations, and of length <= 5 (thorough <= 6) over 10 operations that also build chains three deep, x canceller kinds, plus Hypothesis histories to length 20, against a sequential model of the fire-once / cancel protocol; compared after every operation, with a two-fire epilogue per Deferred",
+    level_text="All histories over {callback, errback, cancel, add callback returning a fresh inner Deferred, fire latest inner ok/fail, cancel latest inner} of the stated length are run for the listed (outer canceller, inner canceller) pairs; a second, 10-operation alphabet adds {add a callback returning a fresh Deferred to the latest inner Deferred, fire / cancel the second-latest Deferred}, so that cancel() has to be forwarded through an intermediate Deferred that has itself fired and is waiting (histories that contain an ignored inner operation are left out: they equal a shorter history; the comparison after every operation covers all prefixes). Hypothesis adds histories up to length 20 that address any inner Deferred and mix canceller kinds per inner Deferred. Exhaustive only inside that scope.",
     level_note="Trusted base: the model in this file (class Model), written from the docstrings of Deferred.__init__ (canceller), callback, errback and cancel. A canceller that raises is expected to propagate out of cancel() and leave the Deferred unfired (documented behaviour). Callbacks do not call back into Deferreds except through cancellers.",
     design_ref="§5 C03",
-    rule="case = (outer canceller, inner canceller, ops). Non-trivial = the history contains a cancel() of some Deferred followed later by a callback/errback on that same Deferred; distinct by the whole case. Classes: late result swallowed, AlreadyCalledError, cancel forwarded to the inner Deferred, canceller fired / did nothing / raised, cancel on a fired Deferred that waits on nothing.",
+    rule="case = (outer canceller, inner canceller, ops). Non-trivial = the history contains a cancel() of some Deferred followed later by a callback/errback on that same Deferred; distinct by the whole case. Classes: late result swallowed, AlreadyCalledError, cancel forwarded to the inner Deferred, canceller fired / did nothing / raised, cancel on a fired Deferred that waits on nothing, cancel forwarded through a fired intermediate Deferred (chain three deep).",
 )
 
 KINDS = ["none", "noop", "cb", "eb", "raise"]
@@ -89,7 +92,7 @@ class Model:
         self._run(d)
         return "ok"
 
-    def cancel(self, d):
+    def cancel(self, d, hops=0):
         """-> 'ok' | 'raised'"""
         if not d.called:
             self.ev.add("cancel of unfired Deferred")
@@ -113,7 +116,11 @@ class Model:
             return "ok"
         if d.result[0] == "d":
             self.ev.add("cancel forwarded to inner")
-            return self.cancel(self.ds[d.result[1]])
+            if hops >= 1:
+                # "cancel() on a fired Deferred that is waiting on another Deferred cancels that
+                # Deferred" applied to the intermediate Deferred, which is in exactly that state
+                self.ev.add("cancel forwarded through a fired intermediate (chain >= 3 deep)")
+            return self.cancel(self.ds[d.result[1]], hops + 1)
         self.ev.add("cancel of fired Deferred: no effect")
         return "ok"
 
@@ -139,6 +146,8 @@ class Model:
             self.log.append((cid, d.result))
             r = self.ds[target]
             if r.result is NO or r.result[0] == "d" or r.paused:
+                if r.result is not NO and r.result[0] == "d":
+                    self.ev.add("waits on a Deferred that is itself waiting (chain >= 3 deep)")
                 d.result = ("d", target)
                 d.paused += 1
                 r.cbs.append(("cont", d.i))
@@ -280,6 +289,16 @@ def _execute(case):
             inners.append(i)
             reals[0].addBoth(mk_cb(n, d))
             model.add(model.ds[0], n, i)
+        elif k == "addto":
+            if not inners or not -len(inners) <= op[1] < len(inners):
+                continue
+            t = inners[op[1]]
+            kind = op[2] if len(op) > 2 else inner_kind
+            d = new(kind)
+            i = len(reals) - 1
+            inners.append(i)
+            reals[t].addBoth(mk_cb(n, d))
+            model.add(model.ds[t], n, i)
         elif k in ("fi", "ci"):
             if not inners or not -len(inners) <= op[1] < len(inners):
                 continue
@@ -354,28 +373,30 @@ def run_case(ctx, case):
 # ---------------------------------------------------------------------------
 
 ALPHABET = [["cb"], ["eb"], ["cancel"], ["add"], ["fi", -1, "ok"], ["fi", -1, "fail"], ["ci", -1]]
+ALPHABET10 = ALPHABET + [["addto", -1], ["fi", -2, "ok"], ["ci", -2]]
+ALPHABETS = {"a7": ALPHABET, "a10": ALPHABET10}
 
 
 def _enum_shard(ctx, arg):
-    outer, inner, length, first = arg
-    A = ALPHABET
+    name, outer, inner, length, first = arg
+    A = ALPHABETS[name]
     n = len(A)
-    needs_inner = [op[0] in ("fi", "ci") for op in A]
+    # how many inner Deferreds an operation needs / whether it creates one
+    need = [(-op[1] if op[0] in ("fi", "ci", "addto") else 0) for op in A]
+    makes = [op[0] in ("add", "addto") for op in A]
 
     def cases():
-        if needs_inner[first]:
-            return
         idx = [0] * (length - 1)
         while True:
             seq = [first] + idx
-            have = False
+            have = 0
             ok = True
             for x in seq:
-                if x == 3:
-                    have = True
-                elif needs_inner[x] and not have:
+                if need[x] > have:
                     ok = False
                     break
+                if makes[x]:
+                    have += 1
             if ok:
                 yield dict(outer=outer, inner=inner, ops=[A[x] for x in seq])
             p = length - 2
@@ -387,11 +408,13 @@ def _enum_shard(ctx, arg):
                 p -= 1
             if p < 0:
                 return
-    enumerate_run(ctx, cases(), run_case)
+    if need[first] == 0:
+        enumerate_run(ctx, cases(), run_case)
 
 
 HYP_OPS = ([["cb"]] * 4 + [["eb"]] * 3 + [["cancel"]] * 6 + [["add"]] * 3
            + [["add", k] for k in KINDS]
+           + [["addto", -1]] * 3 + [["addto", k] for k in (-2, 0)] + [["addto", -1, k] for k in KINDS]
            + [["fi", k, h] for k in (-2, -1, -1, 0, 1) for h in ("ok", "fail")]
            + [["ci", k] for k in (-2, -1, -1, 0, 1)])
 
@@ -408,19 +431,23 @@ def _hyp_shard(ctx, i):
     hyp_run(ctx, histories(), run_case, ctx.pick(2000, 15000), label="hist%d" % i)
 
 
-QUICK_PAIRS = [(o, "none", 6 if o in ("none", "noop", "cb") else 5) for o in KINDS] + [("none", "noop", 5), ("none", "cb", 5),
-                                                 ("none", "raise", 5), ("noop", "eb", 5)]
+QUICK_PAIRS = [("a7", o, "none", 6 if o in ("none", "noop") else 5) for o in KINDS] + [
+    ("a7", "none", "noop", 5), ("a7", "none", "cb", 5), ("a7", "none", "raise", 5), ("a7", "noop", "eb", 5),
+    ("a10", "none", "none", 6), ("a10", "cb", "noop", 5), ("a10", "noop", "raise", 5), ("a10", "none", "cb", 5)]
 
 
 def run(ctx):
     if ctx.thorough:
-        pairs = [(o, i, 8 if i == "none" else 7) for o in KINDS for i in KINDS]
+        pairs = [("a7", o, i, 8 if i == "none" else 7) for o in KINDS for i in KINDS] \
+            + [("a10", o, i, 6) for o in KINDS for i in KINDS]
     else:
         pairs = QUICK_PAIRS
-    args = [(o, i, length, first) for (o, i, length) in pairs for first in range(len(ALPHABET))]
+    args = [(name, o, i, length, first) for (name, o, i, length) in pairs
+            for first in range(len(ALPHABETS[name]))]
     ctx.shards(_enum_shard, args, procs=None if ctx.thorough else 1)
     ctx.extra["exhaustive_scope"] = dict(
-        alphabet=ALPHABET, pairs=[dict(outer=o, inner=i, length=n) for o, i, n in pairs],
+        alphabets=ALPHABETS,
+        pairs=[dict(alphabet=name, outer=o, inner=i, length=n) for name, o, i, n in pairs],
         note="every history of that length without an ignored inner operation; prefixes cover shorter ones")
     ctx.exhaustive = False    # Hypothesis part (length <= 20, any inner index) is sampled
     if ctx.has_violation():
